@@ -202,3 +202,119 @@ def writer_snapshot_reads(repo, rep, rule):
                      "in-place edit (ds['dir'] = ..., ds['efth'] = ...) the output pairs current data with stale values; read it from the dataset "
                      "being written (dset / self.dset / self.efth.spec)", anchor=f"snapshot-read:{fi.short}:{b.attr}")
     rep.floor(rule, "writer plugins / SpecDataset methods examined", n, 8)
+
+
+# ---------------------------------------------------------------------------------------------------------------------
+def falsy_zero_defaulting(repo, rep, rule, prefixes, floor=0):
+    """`p = p or K` (or `p or K` used in place) on a numeric parameter replaces a caller-supplied 0 by K.  Where K is a non-zero
+    constant (literal, module constant, DEFAULTS[...] entry) and 0 lies in the parameter's domain (a threshold, a factor, a
+    tolerance: `x < 0` / `0 * wspd` have a definite meaning), the function no longer applies the stated rule for that argument.
+    Accepted: `p if p is not None else K`, `K if p is None else p`, defaults that are not fixed non-zero numbers."""
+    n = 0
+    # positive example on every run
+    probe = ast.parse("def f(a, b=None):\n    b = b or 1.7\n    return a * b").body[0]
+    if len(list(_falsy_sites(probe, lambda e: e.value if isinstance(e, ast.Constant) else None))) != 1:
+        raise AnalysisError(f"{rule}: detector does not fire on its positive example")
+    for fi in repo.all_funcs():
+        if not fi.module.name.startswith(tuple(prefixes)):
+            continue
+        n += 1
+        sites = list(_falsy_sites(fi.node, lambda e, m=fi.module: repo.const(m, e)))
+        for b, p, k in sites:
+            rep.fail(rule, fi.file, b.lineno, fi.qualname, unparse(b)[:100],
+                     f"a caller-supplied {p} = 0 is falsy and gets replaced by the constant {k!r}: 0 is a legitimate value of a numeric control parameter "
+                     f"(no bin passes a test against a zero threshold / factor), so the stated rule is not applied for that argument; test `{p} is None` instead",
+                     anchor=f"falsy-zero:{fi.short}:{p}")
+        if not sites:
+            rep.ok(rule, f"{fi.file}:{fi.node.lineno} {fi.short}", "`param or <non-zero constant>`", "absent", nontrivial=False)
+    rep.floor(rule, "functions scanned for falsy-zero defaulting", n, max(floor, 1))
+
+
+def _falsy_sites(fn_node, const):
+    a = fn_node.args
+    params = {x.arg for x in a.posonlyargs + a.args + a.kwonlyargs} - {"self", "cls"}
+    for b in ast.walk(fn_node):
+        if not (isinstance(b, ast.BoolOp) and isinstance(b.op, ast.Or) and len(b.values) == 2):
+            continue
+        p, k = b.values
+        if not (isinstance(p, ast.Name) and p.id in params):
+            continue
+        try:
+            v = const(k)
+        except Exception:
+            v = None
+        if isinstance(v, bool) or not isinstance(v, (int, float)) or v == 0:
+            continue
+        yield b, p.id, v
+
+
+# ---------------------------------------------------------------------------------------------------------------------
+def _deps_along_all_true_path(fn_node, params):
+    """Strong-update dependency sets along the path that takes every `if` body (guards that only raise are skipped):
+    name -> set of parameters its current value was computed from.  Returns the dependency set of each `return` met on that path."""
+    deps = {p: {p} for p in params}
+    rets = []
+
+    def of(e):
+        out = set()
+        for x in ast.walk(e):
+            if isinstance(x, ast.Name) and isinstance(x.ctx, ast.Load):
+                out |= deps.get(x.id, set())
+        return out
+
+    def run(stmts):
+        for s in stmts:
+            if isinstance(s, ast.Assign):
+                d = of(s.value)
+                for t in s.targets:
+                    if isinstance(t, ast.Name):
+                        deps[t.id] = set(d)
+                    elif isinstance(t, (ast.Tuple, ast.List)):
+                        for x in t.elts:
+                            if isinstance(x, ast.Name):
+                                deps[x.id] = set(d)
+                    else:           # store into an attribute / element: the base keeps its value and gains the new dependency
+                        base = t
+                        while isinstance(base, (ast.Attribute, ast.Subscript)):
+                            base = base.value
+                        if isinstance(base, ast.Name):
+                            deps[base.id] = deps.get(base.id, set()) | d
+            elif isinstance(s, ast.AugAssign) and isinstance(s.target, ast.Name):
+                deps[s.target.id] = deps.get(s.target.id, set()) | of(s.value)
+            elif isinstance(s, ast.Expr) and isinstance(s.value, ast.Call) and isinstance(s.value.func, ast.Attribute):
+                base = s.value.func.value           # x.update(...) and the like
+                while isinstance(base, (ast.Attribute, ast.Subscript)):
+                    base = base.value
+                if isinstance(base, ast.Name):
+                    deps[base.id] = deps.get(base.id, set()) | of(s.value)
+            elif isinstance(s, ast.If):
+                if all(isinstance(x, ast.Raise) for x in s.body):
+                    run(s.orelse)
+                    continue
+                run(s.body)                         # data dependence only: a test that merely looks at the running result does not carry its value
+            elif isinstance(s, (ast.For, ast.While, ast.With, ast.Try)):
+                run(s.body)
+            elif isinstance(s, ast.Return) and s.value is not None:
+                rets.append((s, of(s.value)))
+    run(fn_node.body)
+    return rets
+
+
+def result_depends_on(repo, rep, rule, qual, needed, what):
+    """On the path where every optional step is taken, the value returned by `qual` is computed from ALL of `needed` (strong updates:
+    a later step that restarts from the original object instead of the running result silently discards the earlier steps)."""
+    fi = repo.func(qual)
+    missing_params = [p for p in needed if p not in fi.params]
+    if missing_params:
+        raise AnalysisError(f"{rule}: {fi.short} has no parameter(s) {missing_params}")
+    rets = _deps_along_all_true_path(fi.node, [p for p in fi.params if p != "self"])
+    if not rets:
+        raise AnalysisError(f"{rule}: {fi.short}: no return on the all-steps path")
+    for r, d in rets:
+        lost = [p for p in needed if p not in d]
+        if lost:
+            rep.fail(rule, fi.file, r.lineno, fi.qualname, unparse(r)[:80],
+                     f"{what}: with every limit given, the returned value no longer depends on {lost}: a later step starts again from the original "
+                     "object rather than from the result of the earlier steps", anchor=f"lost-dependency:{fi.short}")
+        else:
+            rep.ok(rule, f"{fi.file}:{r.lineno} {fi.short}", unparse(r)[:60], f"depends on all of {list(needed)} on the all-steps path")
